@@ -30,6 +30,7 @@ import (
 	stream_types "lunar/engine/streams/types"
 	"lunar/engine/utils/environment"
 	"lunar/toolkit-core/clock"
+	lunar_otel "lunar/toolkit-core/otel"
 	context_manager "lunar/toolkit-core/context-manager"
 
 	"github.com/rs/zerolog"
@@ -277,6 +278,7 @@ flow:
 // fresh directories for one case
 func caseDirs(f []QDef, flows bool) {
 	caseSeq++
+	meter.cbs = nil // the callbacks of the previous case's quota resources
 	wd, _ := os.Getwd()
 	root := filepath.Join(wd, "case")
 	must(os.RemoveAll(root))
@@ -331,7 +333,7 @@ func execRes(k *Case) {
 		setClock(s.Now)
 		qo := quotas[s.Q]
 		var st public_types.APIStreamI
-		if s.Kind != "resetin" {
+		if s.Kind != "resetin" && s.Kind != "scrape" {
 			st = streamsOf[s.R]
 		}
 		s.Out = "none"
@@ -352,6 +354,8 @@ func execRes(k *Case) {
 			}
 		case "resetin":
 			qo.ResetIn()
+		case "scrape":
+			s.Out = doScrape(quotas)
 		case "kinc":
 			r, ok := quotaresource.VerifC01KeyInc(qo, st)
 			s.Out = r
@@ -382,6 +386,10 @@ func execEng(k *Case) {
 	for i := range k.Steps {
 		s := &k.Steps[i]
 		setClock(s.Now)
+		if s.Kind == "scrape" {
+			s.Out = doScrape(nil)
+			continue
+		}
 		req := onRequest(k, k.Reqs[s.R], s.Q)
 		api := stream_types.NewRequestAPIStream(req, shared)
 		acts := &stream_config.StreamActions{Request: &stream_config.RequestStream{}, Response: &stream_config.ResponseStream{}}
@@ -471,20 +479,22 @@ func coqRes(k *Case) string {
 	acts := c.MapList(k.Steps, func(s Step) string {
 		q := c.Z(int64(s.Q))
 		switch s.Kind {
+		case "scrape":
+			return fmt.Sprintf("MScrape %s", c.Z(s.Now))
 		case "inc":
-			return fmt.Sprintf("Inc %s %s %s", q, coqReq(k.Reqs[s.R]), c.Z(s.Now))
+			return fmt.Sprintf("MAct (Inc %s %s %s)", q, coqReq(k.Reqs[s.R]), c.Z(s.Now))
 		case "allowed":
-			return fmt.Sprintf("Allowed %s %s", q, coqReq(k.Reqs[s.R]))
+			return fmt.Sprintf("MAct (Allowed %s %s)", q, coqReq(k.Reqs[s.R]))
 		case "dec":
-			return fmt.Sprintf("Dec %s %s", q, coqReq(k.Reqs[s.R]))
+			return fmt.Sprintf("MAct (Dec %s %s)", q, coqReq(k.Reqs[s.R]))
 		case "resetin":
-			return fmt.Sprintf("ResetIn %s %s", q, c.Z(s.Now))
+			return fmt.Sprintf("MAct (ResetIn %s %s)", q, c.Z(s.Now))
 		case "kinc":
-			return fmt.Sprintf("KInc %s %s %s", q, coqReq(k.Reqs[s.R]), c.Z(s.Now))
+			return fmt.Sprintf("MAct (KInc %s %s %s)", q, coqReq(k.Reqs[s.R]), c.Z(s.Now))
 		case "kallowed":
-			return fmt.Sprintf("KAllowed %s %s", q, coqReq(k.Reqs[s.R]))
+			return fmt.Sprintf("MAct (KAllowed %s %s)", q, coqReq(k.Reqs[s.R]))
 		case "kdec":
-			return fmt.Sprintf("KDec %s %s", q, coqReq(k.Reqs[s.R]))
+			return fmt.Sprintf("MAct (KDec %s %s)", q, coqReq(k.Reqs[s.R]))
 		}
 		panic("kind")
 	})
@@ -492,19 +502,40 @@ func coqRes(k *Case) string {
 	return c.Tuple(coqForest(k.Forest), acts, outs)
 }
 
+func reqSteps(k *Case) []Step {
+	var out []Step
+	for _, s := range k.Steps {
+		if s.Kind != "scrape" {
+			out = append(out, s)
+		}
+	}
+	return out
+}
+
 func coqEng(k *Case) string {
 	h := c.MapList(k.Steps, func(s Step) string {
-		return c.Tuple(c.Z(int64(s.Q)), coqReq(k.Reqs[s.R]), c.Z(s.Now))
+		if s.Kind == "scrape" {
+			return fmt.Sprintf("SScrape %s", c.Z(s.Now))
+		}
+		return "SReq " + c.Tuple(c.Z(int64(s.Q)), coqReq(k.Reqs[s.R]), c.Z(s.Now), "[]")
 	})
-	outs := c.MapList(k.Steps, func(s Step) string { return c.B(s.Out == "true") })
+	// a collection that failed has no verdict to compare: make the case disagree
+	bad := false
+	for _, s := range k.Steps {
+		bad = bad || s.Kind == "scrape" && s.Out != "none"
+	}
+	outs := c.MapList(reqSteps(k), func(s Step) string { return c.B(s.Out == "true") })
+	if bad {
+		outs = "[]"
+	}
 	return c.Tuple(coqForest(k.Forest), h, outs)
 }
 
 func coqEngT(k *Case) string {
-	h := c.MapList(k.Steps, func(s Step) string {
+	h := c.MapList(reqSteps(k), func(s Step) string {
 		return c.Tuple(c.Z(int64(s.Q)), coqReq(k.Reqs[s.R]), c.Z(s.Now), c.ZList(s.Later))
 	})
-	outs := c.MapList(k.Steps, func(s Step) string { return c.B(s.Out == "true") })
+	outs := c.MapList(reqSteps(k), func(s Step) string { return c.B(s.Out == "true") })
 	return c.Tuple(coqForest(k.Forest), h, outs)
 }
 
@@ -553,8 +584,14 @@ func monitorCaseSeq(k *Case) *monHit {
 	var evs []seqEvent
 	if k.Kind == "eng" || k.Kind == "engt" {
 		for i, s := range k.Steps {
+			if s.Out == "err" && s.Kind == "scrape" {
+				return &monHit{"error:metrics-collection", "a metrics collection succeeds", fmt.Sprintf("step %d: a gauge callback failed or panicked", i)}
+			}
 			if s.Out == "err" {
 				return &monHit{"error:ExecuteFlow", "requests are processed", fmt.Sprintf("step %d failed", i)}
+			}
+			if s.Kind == "scrape" {
+				continue // a metrics collection is not a request
 			}
 			keys, costs := chainKeys(f, s.Q, k.Reqs[s.R], cfg)
 			ev := seqEvent{idx: i, t: s.Now, admitted: s.Out == "true", chain: keys, costs: costs}
@@ -573,10 +610,21 @@ func monitorCaseSeq(k *Case) *monHit {
 	} else {
 		for i := 0; i+1 < len(k.Steps); i++ {
 			s := k.Steps[i]
+			if s.Out == "err" {
+				return &monHit{"error:quota-step", "steps succeed", fmt.Sprintf("step %d failed", i)}
+			}
 			if s.Kind != "inc" {
 				continue
 			}
-			a := k.Steps[i+1]
+			// the verdict of this transaction: its Allowed, possibly after metrics collections
+			j := i + 1
+			for j < len(k.Steps) && k.Steps[j].Kind == "scrape" {
+				j++
+			}
+			if j >= len(k.Steps) || k.Steps[j].Kind != "allowed" || k.Steps[j].R != s.R || k.Steps[j].Q != s.Q {
+				continue
+			}
+			a := k.Steps[j]
 			keys, costs := chainKeys(f, s.Q, k.Reqs[s.R], cfg)
 			evs = append(evs, seqEvent{idx: i, t: s.Now, admitted: a.Out == "true", chain: keys, costs: costs})
 		}
@@ -610,6 +658,22 @@ func monitorCaseSched(k *Case) *monHit {
 				m[x] = true
 			}
 			incs[s.R] = append(incs[s.R], inc{s.Now, m})
+		case "dec", "kdec":
+			// the gateway dropped the request (early response, queue time-out): if it
+			// had been admitted before, it was not let through after all
+			keys, _ := chainKeys(f, s.Q, k.Reqs[s.R], cfg)
+			if s.Kind == "kdec" {
+				keys = keys[:1]
+			}
+			for _, key := range keys {
+				var kept []mPoint
+				for _, p := range per[key] {
+					if p.req != s.R {
+						kept = append(kept, p)
+					}
+				}
+				per[key] = kept
+			}
 		case "allowed":
 			if s.Out != "true" {
 				continue
@@ -622,7 +686,7 @@ func monitorCaseSched(k *Case) *monHit {
 						cands = append(cands, in.t)
 					}
 				}
-				p := mPoint{ord: i, weight: costs[j], cands: cands}
+				p := mPoint{ord: i, weight: costs[j], cands: cands, req: s.R}
 				if len(cands) > 0 {
 					p.t = cands[len(cands)-1]
 				}
@@ -842,8 +906,18 @@ func genRes(r *c.Rng) Case {
 			t := g.next(first)
 			first = false
 			g.counted()
-			k.Steps = append(k.Steps, Step{Kind: "inc", Q: home[ri], R: ri, Now: t},
-				Step{Kind: "allowed", Q: home[ri], R: ri, Now: t})
+			k.Steps = append(k.Steps, Step{Kind: "inc", Q: home[ri], R: ri, Now: t})
+			if r.Chance(1, 3) {
+				// a metrics collection between the Inc and the Allowed of the
+				// transaction; the clock may have passed a window end meanwhile
+				t = g.next(false)
+				k.Steps = append(k.Steps, Step{Kind: "scrape", Now: t})
+			}
+			k.Steps = append(k.Steps, Step{Kind: "allowed", Q: home[ri], R: ri, Now: t})
+			if r.Chance(1, 4) {
+				t = g.next(false)
+				k.Steps = append(k.Steps, Step{Kind: "scrape", Now: t})
+			}
 		}
 		return k
 	}
@@ -860,6 +934,10 @@ func genRes(r *c.Rng) Case {
 			g.counted()
 			k.Steps = append(k.Steps, Step{Kind: "inc", Q: q, R: ri, Now: t})
 			if r.Chance(1, 2) {
+				if r.Chance(1, 4) {
+					t = g.next(false)
+					k.Steps = append(k.Steps, Step{Kind: "scrape", Now: t})
+				}
 				k.Steps = append(k.Steps, Step{Kind: "allowed", Q: q, R: ri, Now: t})
 			}
 		case x < 58:
@@ -871,10 +949,12 @@ func genRes(r *c.Rng) Case {
 			k.Steps = append(k.Steps, Step{Kind: "kinc", Q: q, R: ri, Now: t})
 		case x < 92:
 			k.Steps = append(k.Steps, Step{Kind: "kallowed", Q: q, R: ri, Now: t})
-		case x < 95:
+		case x < 94:
 			k.Steps = append(k.Steps, Step{Kind: "kdec", Q: q, R: ri, Now: t})
-		default:
+		case x < 97:
 			k.Steps = append(k.Steps, Step{Kind: "resetin", Q: q, Now: t})
+		default:
+			k.Steps = append(k.Steps, Step{Kind: "scrape", Now: t})
 		}
 	}
 	return k
@@ -902,6 +982,10 @@ func genEng(r *c.Rng) Case {
 		t := g.next(i == 0)
 		g.counted()
 		k.Steps = append(k.Steps, Step{Kind: "limiter", Q: q, R: i, Now: t})
+		if r.Chance(1, 3) {
+			// a metrics collection between two requests (often at a window edge)
+			k.Steps = append(k.Steps, Step{Kind: "scrape", Now: g.next(false)})
+		}
 	}
 	return k
 }
@@ -1196,8 +1280,8 @@ func run(o *c.Out, k Case) {
 func main() {
 	zerolog.SetGlobalLevel(zerolog.Disabled)
 	o := c.NewOut("C01")
-	o.DeclareSuite("res", "From Verif Require Import C01.Model.", "case_res", "run_res")
-	o.DeclareSuite("eng", "From Verif Require Import C01.Model.", "case_eng", "run_eng")
+	o.DeclareSuite("res", "From Verif Require Import C01.Model C01.Metrics.", "case_resm", "run_resm")
+	o.DeclareSuite("eng", "From Verif Require Import C01.Model C01.Metrics.", "case_engm", "run_engm")
 	o.DeclareSuite("engt", "From Verif Require Import C01.Model.", "case_engt", "run_engt")
 	o.Rule("res: random quota forests (1-4 quotas, depth <= 3, max 1-4, window 1-3 s or 1 min, 0-1 grouping header per quota, " +
 		"unit or custom-counter cost) x schedules of 4-14 Inc/Allowed/Dec/ResetIn and per-key KInc/KAllowed/KDec steps of 2-6 requests " +
@@ -1205,6 +1289,10 @@ func main() {
 		"sub-second first instants; eng: same forests, one Limiter flow per quota, 3-9 sequential requests through ExecuteFlow; " +
 		"engt: as eng on chains of depth 2-4 with the mock clock advanced between the levels of the walk (a scripted reading per " +
 		"AtomicIncWindow call, aimed at the ancestors' window edges +-1 ns), non-trivial there = a later reading at an ancestor, a refusal and an admission; " +
+		"metrics collections (every gauge callback the quota resources registered, invoked as the OTel reader does) are steps of the res schedules " +
+		"(between Inc and Allowed of a transaction, anywhere else) and of the eng histories (between requests), clock aimed at window ends; " +
+		"corpus: collection in a full window of a group older than one window then more traffic, collection at the window end +-1 ns between Inc and Allowed, " +
+		"drop (Dec/KDec) of a request let through late in window 1 after another request opened window 2, then max more requests (alone, grouped, as child, as parent); " +
 		"distinct = distinct (forest, schedule, observed verdicts); non-trivial = contains a refusal and, at least 1 s later, an admission on the same quota id")
 	repo := os.Getenv("VERIF_REPO")
 	if repo == "" {
@@ -1212,6 +1300,7 @@ func main() {
 	}
 	environment.SetProcessorsDirectory(filepath.Join(repo, "proxy/src/services/lunar-engine/streams/processors/registry"))
 	mock = context_manager.Get().SetMockClock().GetMockClock()
+	lunar_otel.VerifC01SetMeter(meter)
 	lvl = &levelClock{MockClock: mock}
 	context_manager.Get().VerifC11SetClock(lvl)
 	setClock(baseSec * sec)
@@ -1219,6 +1308,7 @@ func main() {
 	var k Case
 	if _, ok := o.ReplayCase(&k); ok {
 		run(o, k)
+		flushScrapeStats(o)
 		o.Finish()
 		return
 	}
@@ -1228,8 +1318,18 @@ func main() {
 	for _, k := range restartRefusalCases() {
 		run(o, k)
 	}
+	for _, k := range scrapeCases() {
+		run(o, k)
+	}
+	for _, k := range dropCases() {
+		run(o, k)
+	}
+	rd := o.Rng.Fork(4)
+	for i := 0; i < o.Scale(60, 1500, 600); i++ {
+		run(o, genDrop(rd))
+	}
 	rr := o.Rng.Fork(1)
-	for i := 0; i < o.Scale(1300, 20000, 6000); i++ {
+	for i := 0; i < o.Scale(1100, 20000, 6000); i++ {
 		run(o, genRes(rr))
 	}
 	re := o.Rng.Fork(2)
@@ -1246,5 +1346,6 @@ func main() {
 	if o.Thorough() {
 		exhaustive(o)
 	}
+	flushScrapeStats(o)
 	o.Finish()
 }
